@@ -13,7 +13,26 @@ import (
 )
 
 func (b *bsym) inRepo(fn *ssa.Function) bool {
-	return fn.Pkg != nil && strings.HasPrefix(fn.Pkg.Pkg.Path(), b.V.rootPath)
+	if fn.Pkg != nil {
+		return strings.HasPrefix(fn.Pkg.Pkg.Path(), b.V.rootPath)
+	}
+	// synthetic wrappers (pointer-receiver wrappers of value methods, bound methods, thunks)
+	// have no package: decide by the wrapped method
+	if fn.Synthetic != "" {
+		if o := fn.Object(); o != nil && o.Pkg() != nil {
+			return strings.HasPrefix(o.Pkg().Path(), b.V.rootPath)
+		}
+		if fn.Signature != nil && fn.Signature.Recv() != nil {
+			t := fn.Signature.Recv().Type()
+			if p, ok := t.(*types.Pointer); ok {
+				t = p.Elem()
+			}
+			if n, ok := t.(*types.Named); ok && n.Obj().Pkg() != nil {
+				return strings.HasPrefix(n.Obj().Pkg().Path(), b.V.rootPath)
+			}
+		}
+	}
+	return false
 }
 
 func (b *bsym) intrinsic(fn *ssa.Function, args []interface{}) (interface{}, bool) {
